@@ -115,6 +115,18 @@ pub fn c06(ctx: &Ctx) {
                     px[i] = hostile[(i / 3) % hostile.len()];
                 }
             }
+            if variant == 4 || variant == 5 {
+                // ordinary display-referred content: no component of the frame is negative (variant 5: nor above 1)
+                for p in px.iter_mut() {
+                    for c in p.iter_mut() {
+                        *c = if variant == 5 { c.abs().min(1.0) } else { c.abs() };
+                    }
+                }
+            }
+            if variant == 6 {
+                // long runs of similar pixels: the six strata of the generator one after another
+                px = (0..6).flat_map(|k| (k..n).step_by(6)).map(|i| px[i]).collect();
+            }
             px[n - 1] = [1.0, 1.0, 1.0];
             let mut shape = if n % 3 == 0 { (n / 3, 3) } else { (n, 1) };
             if variant == 3 && n >= 128 {
